@@ -216,6 +216,19 @@ pub fn parse_choice(
         }
     }
 
+    // The texts of a choice are kept as source text and compiled when the story is
+    // emitted: what is wrong in them is reported here, where the line is known.
+    for text in [
+        Some(&choice_text.start_text),
+        Some(&choice_text.choice_only_text),
+        choice_text.selected_text.as_ref(),
+    ]
+    .into_iter()
+    .flatten()
+    {
+        super::inline::tokenize_inline_content(text)?;
+    }
+
     Ok(ParsedStatement::Nodes(vec![Node::Choice(Choice {
         display_text: choice_text.display_text.clone(),
         selected_text: choice_text.selected_text.clone(),
